@@ -262,6 +262,12 @@ func (d *Data) handleSyncMessage(ctx *datastore.VersionedCtx, msg datastore.Sync
 	d.StartUpdate()
 	defer d.StopUpdate()
 
+	// The handlers read label element lists, re-partition them and write them back.  Element
+	// edits (StoreElements, DeleteElement, MoveElement) rewrite the same lists under editMu,
+	// so the handlers must hold it too or one of the two updates is lost.
+	d.editMu.Lock()
+	defer d.editMu.Unlock()
+
 	t0 := time.Now()
 	mutation := fmt.Sprintf("sync of data %s: event %s", d.DataName(), msg.Event)
 	var diagnostic string
